@@ -7,7 +7,7 @@
 -/
 import ALV.Lemmas.C10Min
 import ALV.Lemmas.C10LevErr
-import ALV.Lemmas.C10Cov2
+import ALV.Lemmas.C10CovMin
 import ALV.Common.Audit
 
 namespace ALV.Props.C10
@@ -120,9 +120,48 @@ theorem levinson_raises_kind (r : List K) (p : Nat) (e : String)
     subst h
     exact (levIter_error hA).1
 
+/-- **C10.1d** (order update of the error).  `E_{p+1} = E_p − Δ²/E_p` with
+`Δ = Σ_j a_j · r|p+1−j|` — the reported errors of successive orders are linked as the lattice
+recursion says (`E_{p+1} = E_p·(1 − k²)`, `k = −Δ/E_p`). -/
+theorem levinson_error_step (r : List K) (p : Nat) (a a' : List K) (e e' : K)
+    (h : levinson r (some p) = .ok (a, e)) (h' : levinson r (some (p + 1)) = .ok (a', e')) :
+    e' = e - (neResidual r a (p + 1) (p + 1)) ^ 2 / e := by
+  have hc : ∀ k, coef (zeroExt r p) k = coef (zeroExt r (p + 1)) k := fun k => by
+    rw [coef_zeroExt, coef_zeroExt]
+  obtain ⟨h1, h2⟩ := levinson_some_ok h
+  obtain ⟨h1', h2'⟩ := levinson_some_ok h'
+  rw [levIter_congr _ _ hc] at h1
+  rw [inner_congr _ _ a a hc] at h2
+  simp only [levIter, h1] at h1'
+  have := levStep_error (levIter_inv _ p a h1) h1'
+  rw [h2', h2, this, neResidual_eq, Nf_congr_r r (zeroExt r (p + 1)) _ _ _ (fun k => (coef_zeroExt r (p + 1) k).symm)]
+
+/-- **C10.1e** (matrix form of the docstring, ties `toeplitz` to `levinson_durbin`):
+`R . a[1:] = −r[1:p+1]` with `R = toeplitz(r[:p])`. -/
+theorem levinson_solves_toeplitz (r : List K) (order : Option Nat) (a : List K) (e : K)
+    (h : levinson r order = .ok (a, e)) (i : Nat) (hi : i < orderOf r order) :
+    sumL ((List.range (orderOf r order)).map fun j =>
+      coef ((toeplitz ((zeroExt r (orderOf r order)).take (orderOf r order))).getD i []) j * coef a (j + 1))
+      = - coef r (i + 1) := by
+  set p := orderOf r order with hp
+  have hyw := levinson_normal_eqs r order a e h
+  have hlen : ((zeroExt r p).take p).length = p := by
+    rw [List.length_take]; have := zeroExt_length r p; omega
+  have hR : ∀ k, k < p → coef ((zeroExt r p).take p) k = coef r k := fun k hk => by
+    rw [← coef_zeroExt r p k]
+    simp [coef, List.getD_eq_getElem?_getD, hk]
+  rw [sumL_map_range, ← yuleWalker_matrix_form r a p hyw _ hR i hi]
+  refine Finset.sum_congr rfl fun j hj => ?_
+  have hj' : j < p := by simpa using hj
+  have := toeplitz_entry ((zeroExt r p).take p) j i (by omega) (by omega)
+  unfold coef at this ⊢
+  rw [this]
+
 /-- non-vacuity: the recursion returns on a non-trivial lag vector, with the documented values
     (`levinson_durbin([1, 1/2, 1/4, 1/3], 3)`), and raises on a singular one -/
 example : levinson [(1 : Rat), 1/2, 1/4, 1/3] (some 3) = .ok ([1, -1/2, 5/36, -5/18], 299/432) := by decide +kernel
+example : levinson [(1 : Rat), 1/2, 1/4, 1/3] (some 2) = .ok ([1, -1/2], 3/4) := by decide +kernel
+example : (299/432 : Rat) = 3/4 - (5/24) ^ 2 / (3/4) := by decide +kernel
 example : levinson [(1 : Rat), 1, 1] (some 2) = .error "ParCorError" := by decide +kernel
 example : levinson [(2 : Rat), 1] (some 3) = .ok ([1, -3/4, 1/2, -1/4], 5/4) := by decide +kernel
 
@@ -199,6 +238,20 @@ theorem kcovar_returns_solution [LinearOrder K] [IsStrictOrderedRing K]
     (h : kcovar blk order = .ok (a, e)) :
     IsCovarSol blk a (blkOrder blk order) ∧ e = covEnergy a blk (blkOrder blk order) :=
   ⟨kcovar_normal_eqs _ blk order a e h, (kcovar_error _ blk order a e h).1⟩
+
+/-- **C10.4c** (ordered field; beyond the property text) the returned filter minimises the
+residual energy over n ≥ p among all monic filters of order ≤ p. -/
+theorem kcovar_minimises [LinearOrder K] [IsStrictOrderedRing K] (unstable : K → Bool)
+    (blk : List K) (order : Option Nat) (a : List K) (e : K)
+    (h : kcovarWith unstable blk order = .ok (a, e)) (b : List K) (hb0 : coef b 0 = 1)
+    (hbl : b.length ≤ blkOrder blk order + 1) :
+    covEnergy a blk (blkOrder blk order) ≤ covEnergy b blk (blkOrder blk order) := by
+  obtain ⟨_, h1⟩ := kcovarWith_ok h
+  obtain ⟨_, ha0, halen, horth, _⟩ := kcovarOn_ok (phiOf_lagTable_symm blk _) h1
+  rw [lagTable_length] at halen horth
+  rw [← innerM_lagTable_self blk a _ halen, ← innerM_lagTable_self blk b _ hbl,
+    innerM_eq_bil _ a a _ halen halen, innerM_eq_bil _ b b _ hbl hbl]
+  exact bil_lagTable_minimal blk _ (coef a) (coef b) ha0 hb0 horth
 
 /-- `lpc.kcovar` raises (ValueError from `lag_matrix`) when `order ≥ len(blk)` -/
 theorem kcovar_order_too_large (unstable : K → Bool) (blk : List K) (L : Nat)
